@@ -209,6 +209,7 @@ def check_case(seed, idx, rec):
             rec.violation('evaluate-raised-' + type(err).__name__,
                           f'{tag}: {err!r}', case)
             return
+    core.recheck_previous(PROP, rec, case, res, tag)
     if not len(chi2s) == len(pvals) == len(ndfs) == len(oracles) == nds:
         rec.violation('result-lengths', tag, case)
         return
@@ -314,4 +315,6 @@ def run(spec, rec):
 
 def replay(case, rec):
     warnings.simplefilter('ignore')
+    if case.get('previous') is not None:
+        check_case(case['seed'], case['previous'], core.Recorder())
     check_case(case['seed'], case['idx'], rec)
